@@ -416,10 +416,10 @@ def ref_op(call, ins, t):
 
 def oracle(case, result):
     prog, hist = case
-    if isinstance(result, Err):
-        return (f'run:{result.name}', 'building or stepping the streams raised')
     if any(len(e) != 2 for e in hist):
         return None   # harness-driven stepping order: model tie only, the property is about the callback
+    if isinstance(result, Err):
+        return (f'run:{result.name}', 'building or stepping the streams raised')
     struct, hn, ticks = result
     n = len(struct)
     sources = [i for i, (k, _) in enumerate(struct) if k == 0]
